@@ -96,11 +96,38 @@ def alias_oids(rng):
 def build(rec, issuer_rec, foreign_priv):
     """DER of one certificate record issued by issuer_rec (or self-signed when issuer_rec is rec)."""
     issuer_cn = {'match': issuer_rec['cn'], 'mismatch': 'nobody-' + rec['cn'], 'mismatch-shorter': issuer_rec['cn'][:-1],
-                 'mismatch-longer': issuer_rec['cn'] + 'x', 'mismatch-case': issuer_rec['cn'].upper()}[rec['issuer_name']]
+                 'mismatch-longer': issuer_rec['cn'] + 'x', 'mismatch-case': issuer_rec['cn'].upper()}.get(rec['issuer_name'], issuer_rec['cn'])
     signer = issuer_rec['priv'] if rec['sig'] != 'foreign' else foreign_priv
+    issuer_name = None
+    if rec['issuer_name'].startswith('mismatch-rdn-'):
+        # the issuer Name relates to the issuing certificate's subject at the level of whole RDNs: a leading part of it,
+        # a trailing part of it, or the subject followed by one more RDN (a comparison over the shorter length would accept)
+        full = X.name(issuer_rec['cn'])
+        rdns = _split_tlvs(full)
+        pick = {'mismatch-rdn-prefix': rdns[:-1], 'mismatch-rdn-prefix-1': rdns[:1], 'mismatch-rdn-suffix': rdns[1:],
+                'mismatch-rdn-extended': rdns + [X.set_(X.seq(X.oid(X.OID_AT['OU']), X.utf8('x')))]}[rec['issuer_name']]
+        issuer_name = X.seq(*pick)
+        issuer_cn = issuer_rec['cn']
     return X.make_cert(rec['cn'], R.pub(rec['priv']), issuer_cn, signer, not_before=rec['nb'], not_after=rec['na'],
                        exts=exts_of(rec) or None, version=rec['version'], corrupt_sig=rec['sig'] == 'corrupt',
-                       serial=(R.b2i(R.sm3(rec['cn'].encode())[:9]) | (1 << 64)))
+                       serial=(R.b2i(R.sm3(rec['cn'].encode())[:9]) | (1 << 64)), issuer_name=issuer_name)
+
+
+def _split_tlvs(seq_der):
+    """The element TLVs of a DER SEQUENCE (short or long length form)."""
+    b = seq_der
+    hl = 2 if b[1] < 0x80 else 2 + (b[1] & 0x7f)
+    body, out, p = b[hl:], [], 0
+    while p < len(body):
+        ln = body[p + 1]
+        h = 2
+        if ln >= 0x80:
+            k = ln & 0x7f
+            ln = int.from_bytes(body[p + 2:p + 2 + k], 'big')
+            h = 2 + k
+        out.append(body[p:p + h + ln])
+        p += h + ln
+    return out
 
 
 def is_ca(rec):
@@ -236,7 +263,8 @@ def mutate(rec, d, pos, n_inter, rng):
         rec['sig'] = 'foreign'
     elif d == 'issuer-mismatch':
         # unrelated name, or a name that differs from the issuer's subject only at the end / in length / in letter case
-        rec['issuer_name'] = rng.choice(['mismatch', 'mismatch-shorter', 'mismatch-longer', 'mismatch-case'])
+        rec['issuer_name'] = rng.choice(['mismatch', 'mismatch-shorter', 'mismatch-longer', 'mismatch-case', 'mismatch-rdn-prefix',
+                                         'mismatch-rdn-prefix', 'mismatch-rdn-prefix-1', 'mismatch-rdn-suffix', 'mismatch-rdn-extended'])
     elif d == 'unknown-ext':
         rec['unknown_ext'] = 'noncritical'
     elif d == 'unknown-critical-ext':
